@@ -38,6 +38,30 @@ func ruleLineCalcAdd(c *Ctx, r *Report, rule string) {
 	}
 	ok := fl != nil && other == 0
 	why := "expected one loop over the chunk (and the lock)"
+	if ok && fl.Implied != nil {
+		// search-and-hop form: the positions visited are exactly those holding the byte searched for
+		good := *fl.Implied == '\n' && len(fl.Action) == 1
+		if good {
+			app, isA := fl.Action[0].(*ast.AssignStmt)
+			good = isA && len(app.Lhs) == 1 && len(app.Rhs) == 1 && c.fieldPath(app.Lhs[0]) == "<lineCalc>.lfs"
+			if good {
+				call, isC := app.Rhs[0].(*ast.CallExpr)
+				good = isC && c.calleeName(call) == "append" && len(call.Args) == 2 && c.fieldPath(call.Args[0]) == "<lineCalc>.lfs"
+				if good {
+					// prefix + position, in any association
+					l, okL := c.linOfExpr(call.Args[1])
+					good = false
+					if okL {
+						rest := l.sub(c.symOfObj(prefix))
+						// rest must be the position: ask IdxIs through a synthetic comparison of linear forms
+						good = fl.posEquals(c, rest)
+					}
+				}
+			}
+		}
+		r.check(good, rule, "lineCalc.add", "scan for '\\n' from the last hit on; append prefix+position of each hit", "lineCalc.add must append prefix+i for exactly the '\\n' bytes of the chunk: in the search-and-hop form the byte searched for must be '\\n' and the only action lfs = append(lfs, prefix+position)", c.pos(fd.Pos()))
+		return
+	}
 	if ok {
 		// one append to lfs in the loop, of prefix + position, under exactly the condition element == '\n'
 		var app *ast.AssignStmt
